@@ -181,8 +181,8 @@ func (r *syncRun) consNoTrace(f *syncFollower, forkHeight int, what string) bool
 				sb = addrName(*b)
 			}
 			if sa != sb {
-				c.Fail("C06: follower %d %s — slot %d of tick %d (genesis+%ds): the node elects %s, a consensus instance without history on the same chain elects %s",
-					f.id, what, ((t-gen)%ts)/bt, (t-gen)/ts, t-gen, sa, sb)
+				c.Fail("C06: follower %d: slot %d of tick %d (genesis+%ds): the node elects %s, a consensus instance without history on the same chain elects %s — the node %s",
+					f.id, ((t-gen)%ts)/bt, (t-gen)/ts, t-gen, sa, sb, what)
 				res = false
 				return
 			}
@@ -191,24 +191,24 @@ func (r *syncRun) consNoTrace(f *syncFollower, forkHeight int, what string) bool
 		ra, rb := f.cons.FrontierPillarReader(), cold.FrontierPillarReader()
 		for e := uint64(0); e <= uint64((fr.Timestamp.Unix()-gen)/es)+1; e++ {
 			if a, b := js(ra.EpochStats(e)), js(rb.EpochStats(e)); a != b {
-				c.Fail("C06: follower %d %s — consensus statistics of epoch %d with the frontier at height %d: %.300s — a consensus instance without history on the same chain: %.300s",
-					f.id, what, e, fr.Height, a, b)
+				c.Fail("C06: follower %d: consensus statistics of epoch %d with the frontier at height %d: %.300s — a consensus instance without history on the same chain: %.300s — the node %s",
+					f.id, e, fr.Height, a, b, what)
 				res = false
 				return
 			}
 			if a, b := js(ra.GetPillarDelegationsByEpoch(e)), js(rb.GetPillarDelegationsByEpoch(e)); a != b {
-				c.Fail("C06: follower %d %s — pillar delegations of epoch %d: %.300s — a consensus instance without history on the same chain: %.300s", f.id, what, e, a, b)
+				c.Fail("C06: follower %d: pillar delegations of epoch %d: %.300s — a consensus instance without history on the same chain: %.300s — the node %s", f.id, e, a, b, what)
 				res = false
 				return
 			}
 		}
 		if a, b := js(ra.GetPillarWeights()), js(rb.GetPillarWeights()); a != b {
-			c.Fail("C06: follower %d %s — pillar weights: %.300s — a consensus instance without history on the same chain: %.300s", f.id, what, a, b)
+			c.Fail("C06: follower %d: pillar weights: %.300s — a consensus instance without history on the same chain: %.300s — the node %s", f.id, a, b, what)
 			res = false
 			return
 		}
 	}); p != "" {
-		c.Fail("C06: follower %d %s — consensus queries panic: %s", f.id, what, firstLine(p))
+		c.Fail("C06: follower %d: consensus queries panic: %s — the node %s", f.id, firstLine(p), what)
 		return false
 	}
 	if res {
